@@ -116,6 +116,9 @@ TrTx ==
             <<\A a \in DOMAIN L.acc \ {s} : Nonce(M, a) = Nonce(L, a), "C09", "nonce of another account changed">>,
             <<(dec /\ ~Ev.env.sig_ok) => Ev.nraw = 0, "C09", "unauthentic bytes changed the state">>,
             <<(~dec) => Ev.nraw = 0, "C09", "undecodable bytes changed the state">>,
+            \* the same bytes on the replicas that proposed / validated the proposal / replayed / restarted
+            <<("codes_other" \in DOMAIN Ev /\ (~dec \/ ~Ev.env.sig_ok)) => \A i \in DOMAIN Ev.codes_other : Ev.codes_other[i] # 0,
+              "C09", "unauthentic or undecodable bytes executed on a replica that took another execution path">>,
             <<adv => Ev.id \notin executed, "C09", "the same signed bytes took effect twice">>,
             <<(~sys /\ Ev.nraw > 0) => adv, "C09", "bytes changed the state without consuming the signer's nonce (they stay replayable)">>,
             \* C08
